@@ -23,11 +23,17 @@ class PynencError(Exception):
 
     def _to_json_dict(self) -> dict[str, Any]:
         """:return: a json serializable dictionary"""
+        if not self.__dict__ and self.args:
+            # An error that only carries positional arguments (e.g. RetryError("later")):
+            # keep them, otherwise it would come back with empty args.
+            return {"__args__": list(self.args)}
         return self.__dict__
 
     @classmethod
     def _from_json_dict(cls, json_dict: dict[str, Any]) -> "PynencError":
         """:return: a new error from the serialized json compatible dictionary"""
+        if set(json_dict) == {"__args__"}:
+            return cls(*json_dict["__args__"])
         return cls(**json_dict)
 
     def to_json(self) -> str:
